@@ -46,6 +46,9 @@ type c10Env struct {
 	ctx   sdk.Context
 	pairs map[int]*c10Pair
 	mal   map[string]*c10Pair
+	// how tokens of a malicious pair got into the module's escrow: "hook" (a transfer to the module address, converted by
+	// the PostTxProcessing hook) and / or "msg" (an accepted MsgConvertERC20)
+	malFilled map[string]map[string]bool
 	// a script-interpreting contract (model address 4) and an unregistered log-forging token, deployed on demand
 	puppet, stray common.Address
 }
@@ -67,6 +70,15 @@ func c10Gen(r *rand.Rand, tier string) []Case {
 		"mal # kind=direct op=tr u=1 x=200", "mal # kind=direct op=ibcrecv u=1 x=0", "mal # kind=direct op=cc u=1 x=10",
 		"mal # kind=delayed op=tr u=1 x=200", "mal # kind=delayed op=ibcrecv u=1 x=0",
 		"cc 0 1 1 half", "cc 0 1 1 all # via=ibc", "ce 1 1 1 half", "cc 1 1 1 all # via=ibc"})
+	// fixed case: the delayed-malicious token (its transfer secretly approves a third address on the recipient) converted
+	// under every spelling of its contract address, then the approved address tries to empty the module's escrow
+	out = append(out, Case{"preset 0 0 500 0 0 0 0 0", "preset 1 1 0 0 0 500 0 0",
+		"mal # kind=delayed op=ce u=1 x=10", "mal # kind=delayed op=ce u=1 x=10 spell=lower", "mal # kind=delayed op=drain u=1 x=0",
+		"mal # kind=delayed op=ce u=1 x=10 spell=upper", "mal # kind=delayed op=ce u=1 x=10 spell=nox", "mal # kind=delayed op=drain u=1 x=0",
+		"ce 1 1 1 half # spell=lower", "ce 1 1 2 half # spell=nox", "ce 1 2 1 all # spell=upper"})
+	// fixed case (recorded finding): the same token sent to the module address directly — the hook converts it without
+	// looking for Approval events — and the approved address empties the escrow
+	out = append(out, Case{"preset 0 0 500 0 0 0 0 0", "preset 1 1 0 0 0 500 0 0", "mal # kind=delayed op=tr u=1 x=200", "mal # kind=delayed op=drain u=1 x=0"})
 	// fixed case: conversions that name the pair by its contract address, by an account that holds nothing and by one that does
 	out = append(out, Case{"preset 0 0 500 0 0 0 0 0", "preset 1 1 0 0 0 500 0 0", "cc 0 1 1 40", "ce 1 1 1 50",
 		"ccalias 0 2 2 1000 # form=bare", "ccalias 1 2 2 30 # form=bare", "ccalias 0 1 2 100 # form=lower", "ccalias 1 1 2 20 # form=lower",
@@ -91,7 +103,11 @@ func c10Gen(r *rand.Rand, tier string) []Case {
 				if r.Intn(5) == 0 {
 					c = append(c, fmt.Sprintf("ccalias %d %d %d %s # form=%s", p, u, v, pick(r, []string{"half", "1", fmt.Sprint(1 + r.Intn(2000))}), pick(r, []string{"bare", "bare", "lower", "0x"})))
 				} else {
-					c = append(c, fmt.Sprintf("ce %d %d %d %s", p, u, v, amt()))
+					sp := ""
+					if r.Intn(4) == 0 {
+						sp = " # spell=" + pick(r, []string{"lower", "upper", "nox"})
+					}
+					c = append(c, fmt.Sprintf("ce %d %d %d %s%s", p, u, v, amt(), sp))
 				}
 			case x < 13:
 				c = append(c, fmt.Sprintf("tr %d %d %d %s", p, u, pick(r, []int{0, 0, v}), amt()))
@@ -122,10 +138,23 @@ func c10Gen(r *rand.Rand, tier string) []Case {
 	return out
 }
 
+// c10Spell: the spellings of a contract address MsgConvertERC20 accepts (all resolve to the same pair)
+func c10Spell(a common.Address, how string) string {
+	switch how {
+	case "lower":
+		return strings.ToLower(a.Hex())
+	case "upper":
+		return "0x" + strings.ToUpper(a.Hex()[2:])
+	case "nox":
+		return a.Hex()[2:]
+	}
+	return a.Hex()
+}
+
 func c10Exec(c Case) (outs []string, fails []Failure, tags []string) {
 	nw, kr := fixture()
 	app := nw.App
-	env := &c10Env{pairs: map[int]*c10Pair{}, mal: map[string]*c10Pair{}}
+	env := &c10Env{pairs: map[int]*c10Pair{}, mal: map[string]*c10Pair{}, malFilled: map[string]map[string]bool{}}
 	env.ctx, _ = nw.GetContext().CacheContext()
 	env.ctx = env.ctx.WithGasMeter(sdk.NewInfiniteGasMeter()).WithBlockGasMeter(sdk.NewInfiniteGasMeter())
 	modEth := erc20types.ModuleAddress
@@ -367,7 +396,12 @@ func c10Exec(c Case) (outs []string, fails []Failure, tags []string) {
 					s, r := vmIdx(f[2]), vmIdx(f[3])
 					x := amount(f[4], bal(p, ethOf(s)))
 					f[4] = x.String()
-					ok = route(cctx, erc20types.NewMsgConvertERC20(sdkmath.NewIntFromBigInt(x), accOf(r), p.contract, ethOf(s))) == nil
+					cm := erc20types.NewMsgConvertERC20(sdkmath.NewIntFromBigInt(x), accOf(r), p.contract, ethOf(s))
+					if kv["spell"] != "" {
+						cm.ContractAddress = c10Spell(p.contract, kv["spell"])
+						tags = append(tags, "contract-address-spelled:"+kv["spell"])
+					}
+					ok = route(cctx, cm) == nil
 				case "tr":
 					s, t := vmIdx(f[2]), vmIdx(f[3])
 					x := amount(f[4], bal(p, ethOf(s)))
@@ -460,7 +494,21 @@ func c10Exec(c Case) (outs []string, fails []Failure, tags []string) {
 				ok := false
 				switch kv["op"] {
 				case "ce":
-					ok = route(cctx, erc20types.NewMsgConvertERC20(sdkmath.NewIntFromBigInt(x), accOf(u), p.contract, ethOf(1))) == nil
+					cm := erc20types.NewMsgConvertERC20(sdkmath.NewIntFromBigInt(x), accOf(u), p.contract, ethOf(1))
+					if kv["spell"] != "" {
+						cm.ContractAddress = c10Spell(p.contract, kv["spell"])
+					}
+					ok = route(cctx, cm) == nil
+				case "drain":
+					// the address the delayed-malicious token secretly approves takes what it can out of the module's escrow
+					thief := common.HexToAddress("0x4dC6ac40Af078661fc43823086E1513635Eeab14")
+					have := bal(p, modEth)
+					if have.Sign() > 0 {
+						in, _ := c10ABI.Pack("transferFrom", modEth, thief, have)
+						m := ethtypes.NewMessage(thief, &p.contract, app.EvmKeeper.GetNonce(cctx, thief), big.NewInt(0), 3_000_000, big.NewInt(0), big.NewInt(0), big.NewInt(0), in, ethtypes.AccessList{}, false)
+						res, err := app.EvmKeeper.ApplyMessage(cctx, m, evmtypes.NewNoOpTracer(), true)
+						ok = err == nil && !res.Failed()
+					}
 				case "cc":
 					ok = route(cctx, erc20types.NewMsgConvertCoin(sdk.Coin{Denom: p.denom, Amount: sdkmath.NewIntFromBigInt(x)}, ethOf(u), accOf(u))) == nil
 				case "tr":
@@ -477,6 +525,15 @@ func c10Exec(c Case) (outs []string, fails []Failure, tags []string) {
 				}
 				if ok {
 					write()
+					if env.malFilled[kind] == nil {
+						env.malFilled[kind] = map[string]bool{}
+					}
+					switch kv["op"] {
+					case "tr":
+						env.malFilled[kind]["hook"] = true
+					case "ce":
+						env.malFilled[kind]["msg"] = true
+					}
 				}
 				tags = append(tags, "mal:"+kind+":"+kv["op"]+fmt.Sprintf(":%v", ok))
 				cs := app.BankKeeper.GetSupply(env.ctx, p.denom).Amount.BigInt()
@@ -485,6 +542,15 @@ func c10Exec(c Case) (outs []string, fails []Failure, tags []string) {
 					sig := "C10:unbacked:erc20-origin:malicious-" + kind + ":" + kv["op"]
 					if kind == "forger" && kv["op"] == "forge" {
 						sig = "C10:hook-trusts-logs:forged-transfer-log-mints-unbacked-coins"
+					}
+					if kv["op"] == "drain" {
+						// the escrow that was emptied: filled through the hook only (recorded finding: the hook does not look for
+						// Approval events), or (also) through an accepted message conversion (which does look for them)
+						if env.malFilled[kind]["msg"] {
+							sig += ":after-message-conversion"
+						} else {
+							sig = "C10:hook-ignores-approvals:escrow-of-hook-converted-tokens-drained"
+						}
 					}
 					fl(sig, fmt.Sprintf("token %s: coin supply %s, the module holds %s tokens", kind, cs, mod))
 				}
